@@ -21,12 +21,15 @@ extern polyseed_dependency polyseed_deps;
     assert(polyseed_deps.alloc != NULL); \
     assert(polyseed_deps.free != NULL); } while(false)
 
+/* plain char can be unsigned (e.g. ARM, PowerPC), so never test "c < 0" */
+#define IS_NON_ASCII(c) (((unsigned char)(c)) >= 0x80)
+
 /* only normalize strings that contain non-ASCII characters */
 static size_t utf8_nfkd_lazy(const char* str, polyseed_str norm) {
     size_t size = 0;
     const char* pos = str;
     while (*pos != '\0' && size < POLYSEED_STR_SIZE - 1) {
-        if (*pos < 0) { /* non-ASCII */
+        if (IS_NON_ASCII(*pos)) {
             return polyseed_deps.u8_nfkd(str, norm);
         }
         norm[size] = *pos;
